@@ -20,7 +20,7 @@ CHECKS = {
          "5/C06"),
  "C08": ("bounded-exhaustive program enumeration vs the reference evaluator M-eval; disagreements attributed to listed findings only through trigger predicates on the model's own execution",
          "Every nest (depth 2 quick / 3 thorough) of try/catch/finally forms, loops, calls and blocks with every leaf action (throws of 4 value kinds, 6 failing built-ins, deep callee throws, callees that return through try/finally or whose finally block itself returns while a return / an exception is waiting, return, break, continue - also out of finally blocks), including nests whose focus sits inside a finally block while a return is pending, and every sequential pair of nests, run on the real VM and compared with M-eval's block trace and outcome.",
-         "Three open findings (known_findings.json: break/continue out of a try body, return out of a nested try, abrupt exit from a catch that has a finally) are attributed by trigger predicates that fire on exactly those constructs in the model's own execution; the trigger-free population must agree exactly. Bounded by nest depth.",
+         "No open finding: every case must agree with M-eval exactly (the formerly listed KF-C08-01..04 are repaired in /repo and their witnesses are re-run; the trigger table is empty and a panic is never attributable). Bounded by nest depth.",
          "5/C08"),
  "C07": ("bounded-exhaustive program enumeration vs the reference evaluator M-eval (class chain walks, lexical super)",
          "Every class hierarchy of depth 1-3 with per-class choices of method m (absent/plain/super call/super value), n (calls self.m), four constructor forms, probed on instances of the two most derived classes with calls, bound values, arities, unknown members, shadowing fields, type/derives; static methods and Self; local classes; every non-class superclass; construction rules. Run on the real VM and compared with M-eval.",
@@ -68,11 +68,11 @@ CHECKS = {
          "5/C04"),
  "C01": ("exhaustive enumeration of programs x GC schedules on the real collector (schedule hook; swept objects quarantined so every later touch is reported)",
          "Every heap-shape program (root kind x holder chain of length <= 2 over 23 holder kinds - 17 data-structure edges and 6 kinds of transient interpreter state: a return waiting for a finally block, an exception in flight through a finally block, values in transfer between fibers, operands of an unfinished literal or call - x 20 referent kinds, 27k programs) and the C05/C06/C07/C08/C18 corpora plus the C14 (modules) and C17 (error paths) corpora with their module tables run under never (comparison), always (collect at every allocation) and, for the small programs, only{i} for every allocation index (all pairs in the thorough tier): no use-after-free event (dereference of a swept object, open captured variable into a swept fiber stack, object swept while borrowed), output identical to the never-collect run, no crash.",
-         "`always` dominates every other schedule under the quarantine (argued in DESIGN.md and validated by the only{i} runs: 0 counterexamples). One open finding (KF-C01-01) attributed only when the first event is the dangling captured variable of an abandoned fiber.",
+         "`always` dominates every other schedule under the quarantine (argued in DESIGN.md and validated by the only{i} runs: 0 counterexamples). No open finding (KF-C01-01 is repaired; its witness is re-run).",
          "5/C01"),
  "C02": ("exhaustive sweeps of built-ins x receivers x adversarial argument tuples, operator constructs x value kinds, and a resource grid, on the real VM in its checked configuration",
          "Every built-in method on a proper receiver and on an instance of a language-level subclass of the built-in class, with every argument tuple of its arity over a 43-value adversarial pool (incl. tuples holding unhashable values) and neighbouring arities, each call made twice on the same argument objects and required to behave the same; 20 unary and 6 binary constructs over every value / ordered pair; slices over extreme bounds; recursion depth x frame width; nesting ladders to 10^4/10^5; self-containing data, mutation during iteration, fiber misuse. The run must end Ok or with a reported error, never panic/crash/hang, and a failing built-in call inside try/catch must reach the handler with an error-class instance.",
-         "Two open findings (KF-C02-01 natives through derived classes, KF-C02-02 equality of distinct cyclic containers) attributed by receiver kind + panic message / by case identity. Every other corpus of this framework also runs on the checked runner, where a panic is a mismatch.",
+         "No open finding (KF-C02-01 natives through derived classes and KF-C02-02 equality of distinct cyclic containers are repaired; their witnesses are re-run). Every other corpus of this framework also runs on the checked runner, where a panic is a mismatch.",
          "5/C02"),
  "C10": ("exhaustive enumeration of build configurations x programs on really built binaries",
          "The dev profile and the release profile with none/all (quick) or every one of the 32 subsets (thorough) of the five feature switches are built from /repo's working tree with the hooks OFF; every repository script (with its module table), every 4th/2nd program of the generator corpora, C01's heap-shape programs (chains <= 1) and a loop-churn family (8 iterables x 7 kinds of fresh objects allocated in the loop body) run on every configuration; printed lines and outcome (addresses normalised) must be identical across configurations.",
